@@ -316,35 +316,37 @@ def pred(arg, out):
             if key.name == "OutOfFuel":
                 return f"a call did not terminate within the KDF budget at position {(l0, l1, l2)}"
             return f"a call at position {(l0, l1, l2)} failed with {key.name}; with a fresh cache it succeeds"
-    # no-repeat: replay the history sequentially when it is a sync history
-    if flavour == 0:
-        covered = {}
-        loaded = set()
-        oi = 0
-        for ev in events:
-            if ev[0] == 0:
-                loaded.add(ev[1])
-            elif ev[0] in (1, 2):
-                if oi >= len(outs):
-                    break
-                key, l0, l1, l2, opub, rpcs = outs[oi]
-                oi += 1
-                _, sd, rk, e0, e1, e2 = ev
-                if rk is not None:
-                    t = (rk, sd, e0)
-                    have = covered.get(t)
-                    if rk in loaded:
-                        have = (31, 31)
-                    if have is not None and (e1, e2) <= have and rpcs > 0:
-                        return f"position {(e0, e1, e2)} was already covered by cached material at {have} but the call contacted the DC again"
-                if rpcs > 0 and not opub:
-                    p = (l0, l1, l2) if ev[0] == 2 else (e0, e1, e2)
-                    rk_eff = rk if rk is not None else dc_rk
-                    t = (rk_eff, sd, p[0])
-                    if t not in covered or covered[t] < (p[1], p[2]):
-                        covered[t] = (p[1], p[2])
-                if rk is not None and rk in loaded:
-                    covered[(rk, sd, e0)] = (31, 31)
+    # no-repeat: an independent replay of the history (sync or async: Start / Finish events) that only tracks, per
+    # (root key, SD, L0), the latest position for which seed material has been obtained
+    covered, loaded, pend, exp = {}, set(), [], []
+    for ev in events:
+        if ev[0] == 0:
+            loaded.add(ev[1])
+        elif ev[0] in (1, 2):
+            _, sd, rk, e0, e1, e2 = ev
+            if rk is None:
+                pend.append((ev, None))
+                continue
+            t = (rk, sd, e0)
+            have = (31, 31) if rk in loaded else covered.get(t)
+            if have is not None and (e1, e2) <= have:
+                exp.append((0, (e0, e1, e2), have))
+                if rk in loaded:
+                    covered[t] = (31, 31)
+            else:
+                pend.append((ev, t))
+        elif ev[0] == 3 and ev[1] < len(pend):
+            pev, t = pend.pop(ev[1])
+            _, sd, rk, e0, e1, e2 = pev
+            pos = (e0, e1, e2) if pev[0] == 1 else tuple(now)
+            exp.append((1, pos, None))
+            if not pub:
+                tt = (rk if rk is not None else dc_rk, sd, pos[0])
+                if tt not in covered or covered[tt] < (pos[1], pos[2]):
+                    covered[tt] = (pos[1], pos[2])
+    for (want, pos, have), o in zip(exp, outs):
+        if o[5] > want:
+            return f"position {pos} was already covered by cached material at {have} but the call contacted the DC again"
     return None
 
 
@@ -416,8 +418,14 @@ def gen_cases(ctx: Ctx):
             for o in order:
                 fin.append([3, alive.index(o)])
                 alive.remove(o)
-            # Finish indices refer to live pending RPCs; calls that hit the cache never become pending, extra Finish events are no-ops
-            cases.append(mk_case(1, hid, 0, (361, 5, 7), 0, pre + starts + fin + [[3, 0]] * n))
+            # Finish indices refer to live pending RPCs; calls that hit the cache never become pending, extra Finish events are no-ops.
+            # Afterwards every unprotect is repeated sequentially: what the concurrent calls left in the cache must serve them
+            # without a new RPC (the completion order must not matter)
+            follow = []
+            for st in starts:
+                if st[0] == 1:
+                    follow += [st, [3, 0]]
+            cases.append(mk_case(1, hid, 0, (361, 5, 7), 0, pre + starts + fin + [[3, 0]] * n + follow))
             if len(cases) > ctx.n(900, 9000):
                 break
     return cases
